@@ -206,6 +206,10 @@ def parse_program(text):
         elif ln.startswith('static '):
             kind = 'static'
             head = ln[7:]
+        elif ln.rstrip().endswith(' = {') and find_top(ln, ': ') > 0:
+            # keyword-less item (e.g. the accessor constant of a `thread_local!`): treat as a const body
+            kind = 'const'
+            head = ln
         else:
             raise ValueError('unrecognised top-level line %d: %r' % (i + 1, ln[:120]))
         if kind == 'fn':
@@ -443,6 +447,8 @@ def parse_rvalue(s):
         return ('ref', 'rawmut', parse_place(s[9:]))
     if s.startswith('&mut '):
         return ('ref', 'mut', parse_place(s[5:]))
+    if s.startswith('&/*tls*/ '):
+        return ('static_ref', s[len('&/*tls*/ '):].strip())
     if s.startswith('&fake shallow '):
         return ('ref', 'shared', parse_place(s[14:]))
     if s.startswith('&'):
